@@ -156,6 +156,18 @@ func (p c14) Gen(r *simhook.Rand, tier string, idx int) harness.Scenario {
 		sc.Conns = []ConnScript{{Name: "c0", Reqs: reqs}}
 		slot := cluster.Slot([]byte(mk))
 		sc.Faults = []Fault{{Kind: "layout", From: slot, To: slot, Dst: r.Intn(sc.Env.Masters), AfterSend: r.Intn(at)}}
+	} else if sc.Env.Replicas > 0 && r.Chance(1, 3) {
+		if strategy != 0 && r.Chance(1, 2) {
+			// class "strategy-switch": a configuration update sets the read strategy to MASTER while the client works;
+			// every read invoked after the update has returned must go to the owning master
+			sc.Class += "+strategy-switch"
+			sc.Faults = []Fault{{Kind: "read-strategy", Dst: 0, AfterSend: r.Intn(len(cs.Reqs)*8 + 1)}}
+		} else {
+			// class "host-replace": discovery replaces the whole host list (with the same hosts) while the client works;
+			// ownership does not change, so every request is judged as always
+			sc.Class += "+host-replace"
+			sc.Faults = []Fault{{Kind: "host-replace", AfterSend: r.Intn(len(cs.Reqs)*8 + 1)}}
+		}
 	}
 	return sc
 }
@@ -195,6 +207,17 @@ func (p c14) Run(t *testing.T, s harness.Scenario) harness.Outcome {
 							}
 						}
 					}
+					// the read strategy in force for this request: MASTER from the start, or (class strategy-switch) once the
+					// configuration update has returned; requests that overlap the update are not judged for it
+					masterOnly := func(sn *world.Sent) bool {
+						if sc.Env.ReadStrategy == 0 {
+							return true
+						}
+						if w.strategyTask != nil && w.strategyDone > 0 && sn.InvokeStep > w.strategyDone {
+							return true
+						}
+						return false
+					}
 					fail := func(clause, f string, a ...interface{}) {
 						bad = &simrtViolation{Clause: clause, Detail: fmt.Sprintf("request %s (read strategy %s, %d masters x %d replicas): ", describeReq(rq), sc.Class, sc.Env.Masters, sc.Env.Replicas) + fmt.Sprintf(f, a...)}
 					}
@@ -233,7 +256,7 @@ func (p c14) Run(t *testing.T, s harness.Scenario) harness.Outcome {
 								return
 							}
 						}
-					} else if len(sc.Faults) > 0 && c.Name == "c0" && (len(w.faultSteps) == 0 || w.faultSteps[0] < 0 || sn.DoneStep >= w.faultSteps[0]) {
+					} else if len(sc.Faults) > 0 && sc.Faults[0].Kind == "replica-move" && c.Name == "c0" && (len(w.faultSteps) == 0 || w.faultSteps[0] < 0 || sn.DoneStep >= w.faultSteps[0]) {
 						// the layout is changing under this request and the proxy cannot know yet: judged in the second block
 						return
 					}
@@ -287,7 +310,7 @@ func (p c14) Run(t *testing.T, s harness.Scenario) harness.Outcome {
 						case !write && !isOwner && !isReplicaOfOwner:
 							fail("read-at-owner-or-its-replica", "sent to node %d which is neither master %d (slot owner) nor one of its replicas", le.Node, owner)
 							return
-						case !write && isReplicaOfOwner && sc.Env.ReadStrategy == 0:
+						case !write && isReplicaOfOwner && masterOnly(sn):
 							fail("replica-only-when-strategy-permits", "sent to replica node %d although the read strategy is MASTER", le.Node)
 							return
 						case !write && isReplicaOfOwner && !le.ReadOnly:
